@@ -142,3 +142,40 @@ func check(c Case) (r pbt.Result) {
 }
 
 func TestStorageBalanceAndRelease(t *testing.T) { pbt.Run(t, gen, check) }
+
+// Long series with sustained sub-stepping (demand above a sloping maximum-release curve while the
+// store draws down and refills): the bookkeeping inside the adaptive loop must stay right over
+// hundreds of thousands of accepted sub-steps, not just over the few of a short series.
+func genLong(t *rapid.T) Case {
+	c := Case{A: simref.DrawCellCase(t, "Storage", 700, 1500)}
+	desc := simref.New("Storage").Description()
+	maxR := c.A.Cell[simref.ParamIndex(desc, "maxRelease")]
+	vols := c.A.Cell[simref.ParamIndex(desc, "volumes")]
+	dt := c.A.Cell[simref.ParamIndex(desc, "DeltaT")][0]
+	dem := c.A.Inputs[simref.InputIndex(desc, "demand")]
+	inf := c.A.Inputs[simref.InputIndex(desc, "inflow")]
+	// a stiff release rule: time constant 1/slope = 1e4 s, far below the daily step, so the controller
+	// must take of the order of a thousand sub-steps per day
+	minR := c.A.Cell[simref.ParamIndex(desc, "minRelease")]
+	for i := range maxR {
+		maxR[i] = 1e-4 * vols[i]
+		minR[i] = 0
+	}
+	c.A.Cell[simref.ParamIndex(desc, "DeltaT")][0] = 86400
+	_ = dt
+	for k := range dem {
+		dem[k] = 3 * maxR[len(maxR)-1] // always above the curve: the release follows maxRelease(V)
+		// a new equilibrium volume every day (inflow = maxRelease(V_eq)), so every day starts off-equilibrium
+		inf[k] = rapid.Float64Range(0.1, 0.7).Draw(t, "inflowFrac") * maxR[len(maxR)-1]
+	}
+	c.A.State = simref.StateSpec{Direct: []float64{vols[len(vols)-1], 0, 0}}
+	return c
+}
+
+func TestStorageLongSeries(t *testing.T) {
+	pbt.Run(t, genLong, func(c Case) pbt.Result {
+		r := check(c)
+		r.Label("long-series-sustained-sub-stepping")
+		return r
+	})
+}
